@@ -460,6 +460,7 @@ req_sketch<T, C, A> req_sketch<T, C, A>::deserialize(std::istream& is, const Ser
   const bool is_empty = flags_byte & (1 << flags::IS_EMPTY);
   const bool hra = flags_byte & (1 << flags::IS_HIGH_RANK);
   if (is_empty) return req_sketch(k, hra, comparator, allocator);
+  if (num_levels == 0) throw std::invalid_argument("Possible corruption: non-empty sketch with zero levels");
 
   optional<T> tmp; // space to deserialize min and max
   optional<T> min_item;
@@ -493,6 +494,7 @@ req_sketch<T, C, A> req_sketch<T, C, A>::deserialize(std::istream& is, const Ser
     const auto begin = compactors[0].begin();
     const auto end = compactors[0].end();
     n = compactors[0].get_num_items();
+    if (n == 0) throw std::invalid_argument("Possible corruption: non-empty sketch with no items");
     auto min_it = begin;
     auto max_it = begin;
     for (auto it = begin; it != end; ++it) {
@@ -536,6 +538,7 @@ req_sketch<T, C, A> req_sketch<T, C, A>::deserialize(const void* bytes, size_t s
   const bool is_empty = flags_byte & (1 << flags::IS_EMPTY);
   const bool hra = flags_byte & (1 << flags::IS_HIGH_RANK);
   if (is_empty) return req_sketch(k, hra, comparator, allocator);
+  if (num_levels == 0) throw std::invalid_argument("Possible corruption: non-empty sketch with zero levels");
 
   optional<T> tmp; // space to deserialize min and max
   optional<T> min_item;
@@ -574,6 +577,7 @@ req_sketch<T, C, A> req_sketch<T, C, A>::deserialize(const void* bytes, size_t s
     const auto begin = compactors[0].begin();
     const auto end = compactors[0].end();
     n = compactors[0].get_num_items();
+    if (n == 0) throw std::invalid_argument("Possible corruption: non-empty sketch with no items");
     auto min_it = begin;
     auto max_it = begin;
     for (auto it = begin; it != end; ++it) {
